@@ -157,7 +157,7 @@ impl Scenario for C08 {
     fn runs(&self, tier: Tier) -> u64 {
         match tier {
             Tier::Quick => 120_000,
-            Tier::Thorough => 5_000_000,
+            Tier::Thorough => 3_000_000,
         }
     }
     fn log_runs(&self, tier: Tier) -> u64 {
